@@ -122,7 +122,7 @@ def proc_sample(chk, prop, n):
 
 def run(chk, prop=PROP, props=PROPS, bias=''):
     chk.audit(props)
-    n = 900 if chk.tier == 'quick' else 30000
+    n = 900 if chk.tier == "quick" else 30000
     results = core.e1_flow(chk, 'scen_servlet', 'servlet', {prop}, gen(chk, bias), n, keyfn=keyfn)
     dist = {}
     for case, res in results:
